@@ -673,6 +673,48 @@ theorem givens_reconstruct_product (tol : Rat) (htol : 0 < tol) (ai : Bool) (m n
   · subst e; simp
   · simp only [e, if_false]; exact hz i x hi hx e
 
+/-- **The returned `left_unitary` is unitary** (rows orthonormal), for every `m × n` input in the exact regime: it is the
+identity transformed by the unitary row rotations of the left stage. -/
+theorem givens_left_unitary_is_unitary (tol : Rat) (htol : 0 < tol) (m n : Nat) (hmn : m ≤ n) (Q M V : Mat) (hQ : Rect Q m n)
+    (h1 : leftStage tol (givensLeft m n) Q (Mat.identity m) = .ok (M, V)) (hex1 : LeftExact tol (givensLeft m n) Q) :
+    RowsOrthonormal V m m := by
+  have hleftval : ∀ p ∈ givensLeft m n, p.1 + 1 < m := by
+    intro p hp
+    obtain ⟨l, k⟩ := p
+    have := (mem_givensLeft m n l k hmn).1 hp
+    simp only; omega
+  exact leftStage_V_orthonormal tol htol m n _ Q (Mat.identity m) M V h1 hex1 hQ (identity_rect m) hleftval
+    (identity_orthonormal m)
+
+open Finset in
+/-- **`givens_decomposition` for `m = n`** (only the left-unitary stage runs; no rotations are returned): for every `n × n`
+unitary `Q` in the exact regime, `V Q = D` as a matrix product with `V` the returned `left_unitary`, `|D_ii| = 1`, and `D`
+the returned diagonal (`diag M`). -/
+theorem givens_square_case_product (tol : Rat) (htol : 0 < tol) (n : Nat) (Q M V : Mat) (hQ : Rect Q n n)
+    (horth : RowsOrthonormal Q n n)
+    (h1 : leftStage tol (givensLeft n n) Q (Mat.identity n) = .ok (M, V)) (hex1 : LeftExact tol (givensLeft n n) Q) :
+    ∀ i x, i < n → x < n →
+      (∑ w ∈ range n, V.get i w * Q.get w x) = (if i = x then M.get i i else 0) ∧
+      ((M.get i i).re * (M.get i i).re + (M.get i i).im * (M.get i i).im = 1) := by
+  intro i x hi hx
+  have hleftval : ∀ p ∈ givensLeft n n, p.1 + 1 < n := by
+    intro p hp
+    obtain ⟨l, k⟩ := p
+    have := (mem_givensLeft n n l k (Nat.le_refl n)).1 hp
+    simp only; omega
+  obtain ⟨hR, hc⟩ := leftStage_zeroes_corner tol htol n n (Nat.le_refl n) Q (Mat.identity n) M V h1 hex1 hQ
+  have ho := leftStage_orthonormal tol htol n n _ Q (Mat.identity n) M V h1 hex1 hQ hleftval horth
+  have hup : ∀ i j, i < n → i < j → j < n → M.get i j = 0 := by
+    intro i j _ hij hj
+    exact hc i j ((mem_givensLeft n n i j (Nat.le_refl n)).2 ⟨hj, by omega⟩)
+  have hd := diagonal_of_triangular_orthonormal M n n (Nat.le_refl n) hup ho
+  obtain ⟨hprod, _⟩ := leftStage_prod tol n n Q _ Q (Mat.identity n) M V h1 hQ (identity_rect n) hleftval (identity_prod Q n n)
+  refine ⟨?_, (hd i hi).2⟩
+  rw [← hprod i x hi hx]
+  by_cases e : i = x
+  · subst e; simp
+  · simp only [e, if_false]; exact (hd x hx).1 i hi e
+
 /-! ## The reconstruction theorems with executable hypotheses
 
 `squareHypothesesB`, `givensHypothesesB` and `orthonormalB` are Boolean functions of the input which the driver
@@ -725,6 +767,23 @@ example : squareHypothesesB (1/100000000) [[⟨3/5, 0⟩, ⟨4/5, 0⟩], [⟨-4/
     orthonormalB [[⟨3/5, 0⟩, ⟨4/5, 0⟩], [⟨-4/5, 0⟩, ⟨3/5, 0⟩]] 2 2 = true := by decide +kernel
 example : givensHypothesesB (1/100000000) [[0, ⟨3/5, 0⟩, ⟨4/5, 0⟩], [0, ⟨-4/5, 0⟩, ⟨3/5, 0⟩]] 3 false = true ∧
     orthonormalB [[0, ⟨3/5, 0⟩, ⟨4/5, 0⟩], [0, ⟨-4/5, 0⟩, ⟨3/5, 0⟩]] 2 3 = true := by decide +kernel
+
+/-! ## The pivot hypothesis of the Gaussian decomposition
+
+`gaussAllPivots out N` (decidable, evaluated by the driver on every Gaussian input and — from the returned `'pht'` count —
+on the implementation's own output) says that all `N` particle-hole pivots were non-zero.  The harness treats it as the
+boundary of the known finding: a reconstruction failure on an input where all pivots were non-zero is a VIOLATION even if the
+left block is singular.  `gaussian_reconstruct` under this hypothesis is NOT proved (named gap: the right block after the
+sweep is diagonal); the two kernel-checked instances below show the predicate separating a working input from F11. -/
+
+theorem test_pivot_hypothesis_fails_on_F11 :
+    (decompGauss (1/100000000) [[0, 0, 0, 1], [0, 0, 1, 0]] 4).toOption.map (fun o => gaussAllPivots o 2) = some false := by
+  decide +kernel
+
+theorem test_pivot_hypothesis_holds_on_bcs :
+    (decompGauss (1/100000000) [[⟨3/5, 0⟩, 0, 0, ⟨4/5, 0⟩], [0, ⟨3/5, 0⟩, ⟨-4/5, 0⟩, 0]] 4).toOption.map
+      (fun o => (gaussAllPivots o 2, o.diag.map fun d => d.re * d.re + d.im * d.im)) = some (true, [1, 1]) := by
+  decide +kernel
 
 /-! ## Known finding F11 -/
 
